@@ -127,6 +127,8 @@ impl QueuingExecutor {
                     }
                     RunTask::Suspended | RunTask::Completed => did_some_work = true,
                 }
+                #[cfg(feature = "crux_verif")]
+                crate::verif_sched::point(crate::verif_sched::Point::ExecutorTaskDone);
             }
         }
     }
@@ -144,6 +146,8 @@ impl QueuingExecutor {
 
         // free the mutex so other threads can make progress
         drop(lock);
+        #[cfg(feature = "crux_verif")]
+        crate::verif_sched::point(crate::verif_sched::Point::ExecutorTaskTaken);
 
         let waker = Arc::new(TaskWaker {
             task_id,
@@ -154,6 +158,8 @@ impl QueuingExecutor {
 
         // poll the task
         if task.as_mut().poll(context).is_pending() {
+            #[cfg(feature = "crux_verif")]
+            crate::verif_sched::point(crate::verif_sched::Point::ExecutorTaskPolled);
             // If it's still pending, put the future back in the slot
             self.tasks
                 .lock()
@@ -163,6 +169,8 @@ impl QueuingExecutor {
                 .replace(task);
             RunTask::Suspended
         } else {
+            #[cfg(feature = "crux_verif")]
+            crate::verif_sched::point(crate::verif_sched::Point::ExecutorTaskPolled);
             // otherwise the future is completed and we can free the slot
             self.tasks.lock().unwrap().remove(*task_id as usize);
             RunTask::Completed
@@ -305,7 +313,10 @@ mod tests {
 /// executor and observe its queues.
 #[cfg(feature = "crux_verif")]
 pub mod verif_hooks {
-    use super::{executor_and_spawner, QueuingExecutor, Spawner};
+    use super::{executor_and_spawner, QueuingExecutor};
+
+    /// The real spawner type (its module is private), so harnesses can name it.
+    pub use super::Spawner;
 
     /// The real executor behind a public name.
     pub struct Executor(QueuingExecutor);
